@@ -1,4 +1,5 @@
 (* C03 -- re-encoding a decoded message is stable, and byte-exact for canonical input. *)
+From NV Require C19.Globals.
 From NV Require Import Lib.Base Codec.Lang Codec.Def Codec.Sem Codec.Total Codec.Dispatch Codec.GenDefs Codec.WF Codec.RoundTrip Codec.DecodeWF Codec.Stmt Codec.StmtProofs Codec.Final
   Gen.GenMsgs Gen.GenTypes.
 From Coq Require Import String.
@@ -51,9 +52,18 @@ Theorem C03_stable_programs : forall g bs m, In g all_msgs -> bytes_ok bs -> exe
   exists bs', exec_enc nas_types g m = Ok bs' /\ exec_dec nas_types g bs' = Ok m.
 Proof. exact program_reencode_stable. Qed.
 
+(* the functions this property is about are functions of their arguments: the files it is anchored in declare
+   no package-level variable other than the pinned read-only tables (or a never-touched one of plain type) and
+   none of their functions writes, slices, takes the address of, passes on or calls a method of a
+   package-level variable (logger entries excepted) -- evaluated on the current source (C19/Globals.v) *)
+Theorem C03_anchor_files_keep_no_state :
+  Globals.hidden_state_free Globals.anchors_C03 = true.
+Proof. vm_compute. reflexivity. Qed.
+
 Print Assumptions C03_decode_wf.
 Print Assumptions C03_stable.
 Print Assumptions C03_fixed_point.
 Print Assumptions C03_canonical_exact.
 Print Assumptions C03_all_defs_ok.
 Print Assumptions C03_stable_programs.
+Print Assumptions C03_anchor_files_keep_no_state.
